@@ -11,6 +11,7 @@ import JanetModel.Peg.Lemmas
 import JanetModel.Peg.Bounds
 import JanetModel.Peg.Entry
 import JanetModel.Peg.ReplaceLemmas
+import JanetModel.Peg.ValidateLemmas
 
 namespace JanetModel.Props.C12
 open JanetModel.Peg
@@ -210,6 +211,38 @@ theorem find_first_error (m : Matcher) (len start : Nat) (e : Err) (i : Nat) (hi
     have hl : len - (start + 1) = n := by omega
     rw [hl] at this
     simp [hn', findLoop, h0, bind, Except.bind, this]
+
+/-! ### compiled grammar = source grammar (translation validation of peg/compile's output)
+
+`validate (decode P) (Spec.fetch dflt) k a c` (Peg/Validate.lean) is executable: the driver runs it on the bytecode and
+constants dumped from the REAL `peg/compile` for every generated grammar.  It is sound: -/
+
+/-- **compile_validated_correct**: if the compiled program `P` validates against the source form `c` (same opcodes, same
+    immediate operands, sub-rules pairwise validated - sharing through the compiler's rule cache included), then for every
+    text, arguments, fuel, state and position the OPERATIONAL run of the bytecode agrees with the DOCUMENTED meaning of the
+    source form (errors equal; match ⇒ state extended by exactly the source's captures; no match ⇒ nothing kept). -/
+theorem compile_validated_correct (E : Env) (hE : E.lenprefixLeak = false) (P : Program) (dflt : Spec.Scope) (k : Nat)
+    (a : Nat) (c : Spec.Closure) (hv : validate (decode P) (Spec.fetch dflt) k a c = true)
+    (fuel : Nat) (s : St) (pos : Nat) :
+    match Den.run E (Spec.fetch dflt) fuel c s pos with
+    | .error e => Op.run E (decode P) fuel a s pos = .error e
+    | .ok none => ∃ s', Op.run E (decode P) fuel a s pos = .ok (none, s') ∧ s.le s'
+    | .ok (some (p, d)) => Op.run E (decode P) fuel a s pos = .ok (some p, s.extend d) := by
+  have h := op_eq_den E hE (decode P) fuel a s pos
+  rw [validate_sound E (decode P) (Spec.fetch dflt) k a c hv fuel] at h
+  exact h
+
+/-- and so all five entry points on the compiled program are those of the source grammar -/
+theorem compiled_entry_points_eq_source (E : Env) (hE : E.lenprefixLeak = false) (P : Program) (dflt : Spec.Scope) (k : Nat)
+    (c : Spec.Closure) (hv : validate (decode P) (Spec.fetch dflt) k 0 c = true) (fuel guard : Nat) :
+    opMatcher E (decode P) 0 fuel guard = denMatcher E (Spec.fetch dflt) c fuel guard := by
+  rw [opMatcher_eq_denMatcher E hE]
+  funext start
+  simp only [denMatcher, validate_sound E (decode P) (Spec.fetch dflt) k 0 c hv fuel]
+
+/-- non-vacuity: a hand-assembled program for `(* "a" (<- (any "b")))` validates against that source form -/
+example : validate (decode { bytecode := #[7, 2, 5, 8, 0, 0, 1, 97, 13, 11, 0, 11, 0, 4294967295, 15, 0, 1, 98], constants := #[] })
+    (Spec.fetch []) 8 0 ⟨[], .seq [.str [97], .capture (.any (.str [98])) 0]⟩ = true := by decide
 
 /-! ### replace / replace-all agree with repeated matching (closed form `replSpec`, Peg/Entry.lean) -/
 
